@@ -290,6 +290,7 @@ type Frame struct {
 	locals  []localCell
 	autoDrop map[string]bool
 	protected []protectedObj
+	blockReach map[*ssa.BasicBlock]string
 }
 
 type protectedObj struct {
@@ -322,7 +323,7 @@ var frameCounter int
 func newFrame(q *Query, fn *ssa.Function, parent *Frame) *Frame {
 	frameCounter++
 	fr := &Frame{q: q, fn: fn, parent: parent, vals: map[ssa.Value]Val{}, edgeOut: map[*ssa.BasicBlock][]flow{},
-		nonNilParams: map[*ssa.Parameter]bool{}, loops: map[*ssa.BasicBlock]*loopInfo{}, backEdge: map[[2]int]bool{}, callOrd: map[string]int{}, ghost: map[string]string{}}
+		blockReach: map[*ssa.BasicBlock]string{}, nonNilParams: map[*ssa.Parameter]bool{}, loops: map[*ssa.BasicBlock]*loopInfo{}, backEdge: map[[2]int]bool{}, callOrd: map[string]int{}, ghost: map[string]string{}}
 	if parent == nil {
 		fr.prefix = "v"
 	} else {
@@ -825,6 +826,7 @@ func (fr *Frame) execBlock(b *ssa.BasicBlock, st0 *State, reach0 string) {
 	}
 	fr.cur = flow{reach: reach, st: st}
 	fr.curBlock = b
+	fr.blockReach[b] = reach
 	for _, ins := range b.Instrs {
 		if _, ok := ins.(*ssa.Phi); ok {
 			continue
